@@ -195,6 +195,88 @@ fn find_fn<'a>(f: &'a File, name: &str) -> Option<&'a ItemFn> {
     })
 }
 
+
+// ---------------------------------------------------------------------------------------------------------
+// Special extractor: every access to the static EXIT_CODE in src/cli/main.rs, grouped by the closure (or function
+// body) it is written in, in source order.  Accesses inside closures form the programs that may run on any thread,
+// any number of times; accesses directly in a function body are run by the main thread.
+// A conditional access is translated as an unconditional one (conservative: more behaviours, never fewer).
+struct ExitOps {
+    stack: Vec<usize>,               // ids of the enclosing closures (empty = function body)
+    next_id: usize,
+    fn_name: String,
+    found: Vec<(String, usize, String)>, // (function, closure id or 0, instr)
+    errors: Vec<String>,
+}
+fn int_arg(e: &Expr) -> Option<u64> {
+    match e {
+        Expr::Lit(ExprLit { lit: Lit::Int(i), .. }) => i.base10_parse().ok(),
+        _ => None,
+    }
+}
+impl<'ast> syn::visit::Visit<'ast> for ExitOps {
+    fn visit_item_fn(&mut self, f: &'ast ItemFn) {
+        let old = std::mem::replace(&mut self.fn_name, f.sig.ident.to_string());
+        syn::visit::visit_item_fn(self, f);
+        self.fn_name = old;
+    }
+    fn visit_expr_closure(&mut self, c: &'ast ExprClosure) {
+        self.next_id += 1;
+        self.stack.push(self.next_id);
+        syn::visit::visit_expr_closure(self, c);
+        self.stack.pop();
+    }
+    fn visit_expr_method_call(&mut self, m: &'ast ExprMethodCall) {
+        // arguments (and receiver) first: evaluation order
+        syn::visit::visit_expr_method_call(self, m);
+        if let Expr::Path(p) = &*m.receiver {
+            if p.path.is_ident("EXIT_CODE") {
+                let args: Vec<&Expr> = m.args.iter().collect();
+                let instr = match (m.method.to_string().as_str(), args.as_slice()) {
+                    ("load", [_]) => Some("Load".to_string()),
+                    ("store", [v, _]) => int_arg(v).map(|k| format!("Store {}", k)),
+                    ("fetch_max", [v, _]) => int_arg(v).map(|k| format!("FetchMax {}", k)),
+                    ("compare_exchange", [a, b, _, _]) => match (int_arg(a), int_arg(b)) { (Some(x), Some(y)) => Some(format!("Cas {} {}", x, y)), _ => None },
+                    ("swap", [v, _]) => int_arg(v).map(|k| format!("Store {}", k)),
+                    _ => None,
+                };
+                match instr {
+                    Some(i) => self.found.push((self.fn_name.clone(), self.stack.last().copied().unwrap_or(0), i)),
+                    None => self.errors.push(format!("EXIT_CODE access outside subset: {}", m.to_token_stream())),
+                }
+            }
+        }
+    }
+    fn visit_macro(&mut self, m: &'ast Macro) {
+        // accesses hidden in macro arguments (e.g. inside error!(...)) would be invisible: refuse them
+        if m.tokens.to_string().contains("EXIT_CODE") {
+            self.errors.push(format!("EXIT_CODE inside a macro invocation: {}", m.path.to_token_stream()));
+        }
+    }
+}
+fn exit_ops(repo: &str) -> R<String> {
+    let path = format!("{}/src/cli/main.rs", repo);
+    let src = std::fs::read_to_string(&path).map_err(|e| format!("{}: {}", path, e))?;
+    let f = parse_file(&src).map_err(|e| format!("{}: {}", path, e))?;
+    let mut v = ExitOps { stack: vec![], next_id: 0, fn_name: String::new(), found: vec![], errors: vec![] };
+    syn::visit::visit_file(&mut v, &f);
+    if !v.errors.is_empty() {
+        return Err(v.errors.join("; "));
+    }
+    let mut programs: Vec<(String, usize, Vec<String>)> = vec![];
+    for (func, id, instr) in v.found {
+        match programs.iter_mut().find(|(f2, i2, _)| *f2 == func && *i2 == id) {
+            Some(p) => p.2.push(instr),
+            None => programs.push((func, id, vec![instr])),
+        }
+    }
+    let mut out = String::from("(* GENERATED by rs2v from src/cli/main.rs :: every access to EXIT_CODE -- do not edit; regenerated on every run *)\nFrom Coq Require Import List.\nImport ListNotations.\nFrom SV Require Import Sched.\n");
+    let show = |ps: Vec<&(String, usize, Vec<String>)>| ps.iter().map(|p| format!("[{}] (* fn {}{} *)", p.2.join("; "), p.0, if p.1 > 0 { format!(", closure #{}", p.1) } else { String::new() })).collect::<Vec<_>>().join(";\n  ");
+    out += &format!("Definition exit_programs : list (list instr) :=\n  [{}].\n", show(programs.iter().filter(|p| p.1 > 0).collect()));
+    out += &format!("Definition exit_main : list (list instr) :=\n  [{}].\n", show(programs.iter().filter(|p| p.1 == 0).collect()));
+    Ok(out)
+}
+
 fn main() {
     let args: Vec<String> = std::env::args().collect();
     let repo = args.get(1).map(|s| s.as_str()).unwrap_or("/repo");
@@ -226,6 +308,19 @@ fn main() {
                 println!("UNTRANSLATABLE {} {}", k.func, e.replace('\n', " "));
                 failed = true;
             }
+        }
+    }
+    match exit_ops(repo) {
+        Ok(text) => {
+            let out = format!("{}/ExitOps.v", outdir);
+            if std::fs::read_to_string(&out).ok().as_deref() != Some(text.as_str()) {
+                std::fs::write(&out, text).unwrap();
+            }
+            println!("TRANSLATED exit_ops {}", out);
+        }
+        Err(e) => {
+            println!("UNTRANSLATABLE exit_ops {}", e.replace('\n', " "));
+            failed = true;
         }
     }
     std::process::exit(if failed { 1 } else { 0 });
